@@ -1,6 +1,7 @@
 """property -> rules mapping and the run context (facts per cfg configuration, thorough-tier matrix)."""
 import facts
 import r04_conv
+import r07_cache
 
 MATRIX = ["baseline", "nofeat", "norayon", "pcsaft", "pcsaft_dft", "epcsaft", "gc_pcsaft", "gc_pcsaft_dft",
           "pets", "pets_dft", "uvtheory", "saftvrmie", "saftvrqmie", "saftvrqmie_dft", "estimator"]
@@ -29,7 +30,12 @@ def r4(ctx, prop):
     return r04_conv.run(ctx.F(), prop)
 
 
+def r7(ctx, prop):
+    return r07_cache.run(ctx.F())
+
+
 PROPERTY_RULES = {
+    "C11": [r7],
     "C03": [r4],
     "C04": [r4],
     "C05": [r4],
